@@ -225,15 +225,15 @@ def who_may(rep):
             rep.fail("who-may-construct", adt.split("::")[-1] + "/field-visibility", "%s has a public field: external code can wrap an unverified commitment" % adt.split("::")[-1])
     expect = {(CSBS, "sign"): {"initialize", "allow_payment"}, (BPT, "sign"): {"activate", "complete_payment"}}
     for (adt, nm), okcallers in expect.items():
-        cs = callers_of(prog, lambda d: is_method_of(d, adt, nm))
-        rep.floor("callers of %s::%s" % (adt.split("::")[-1], nm), len(cs), 2)
-        for b, bi, t in cs:
-            root = root_body(prog, b)
-            nmr = root.desc.get("name")
+        def is_entry(root, okcallers=okcallers):
             st = root.desc.get("self_ty")
             inmerchant = st is not None and strip_refs(st)[0] == "adt" and strip_refs(st)[1] in (MCFG, ZA + "::merchant::Unrevoked")
-            k = "%s::%s <- %s" % (adt.split("::")[-1], nm, nmr)
-            if nmr in okcallers and inmerchant:
-                rep.ok("who-may-sign", k, sample=root.path)
-            else:
-                rep.fail("who-may-sign", k, "blind-signing entry point %s::%s is called from %s" % (adt.split("::")[-1], nm, root.path), site=b.loc(t.get("ln")))
+            return inmerchant and root.desc.get("name") in okcallers
+        entries, offenders = entry_points_reaching(prog, lambda d, adt=adt, nm=nm: is_method_of(d, adt, nm), is_entry)
+        rep.floor("API entry points reaching %s::%s" % (adt.split("::")[-1], nm), len(entries), 2)
+        for root in entries.values():
+            rep.ok("who-may-sign", "%s::%s <- %s" % (adt.split("::")[-1], nm, root.desc.get("name")), sample=root.path + " (directly or through private helpers)")
+        for root, site_b, t in offenders:
+            rep.fail("who-may-sign", "%s::%s <- %s" % (adt.split("::")[-1], nm, root.desc.get("name")),
+                     "blind-signing entry point %s::%s is reachable from %s, which is neither one of the four merchant API calls nor a private helper used only by them" % (
+                         adt.split("::")[-1], nm, root.path), site=site_b.loc(t.get("ln")))
